@@ -2,12 +2,13 @@
 # usage: tools/reverify_seeded.sh [id ...]   re-confirms seeded changes on /repo HEAD: patch applies, demo OK on the clean
 # tree and FAIL with the patch, and the quick check of the property reports a violation on the patched tree.
 # Works in a scratch worktree of /repo (removed at the end); never touches /repo's working tree.
-cd /verif
+root=$(cd "$(dirname "$0")/.." && pwd)
+cd "$root"
 ids=${*:-$(ls seeded)}
 wt=/tmp/wsv_$$
 git -C /repo worktree add --detach $wt HEAD -q || exit 3
 for id in $ids; do
-  d=/verif/seeded/$id
+  d=$root/seeded/$id
   prop=$(echo $id | cut -d- -f1)
   (cd $wt && git checkout -q -- . )
   PYTHONPATH=$wt/src /venv/bin/python $d/demo.py >/dev/null 2>&1; rc_clean=$?
